@@ -494,6 +494,20 @@ def oracle_C11(sc, obs):
     return None
 
 
+SLOW_WHILE_STOPPED = "marked slow on stopped time"
+
+
+def known_class_F17(sc, why):
+    """finding F17: a Stop delivered while the unit is being terminated for a shutdown signal (the slow-timeout
+    interval sleep is not paused by terminate_child)"""
+    if not why or not why.startswith(SLOW_WHILE_STOPPED):
+        return False
+    u = sc["u"]
+    shut = [t for t, n in effective_sigs(sc) if n in SHUT]
+    return bool(shut) and any(n == "TSTP" and shut[0] < t < shut[0] + sc["grace"] for t, n in sc["sigs"]) \
+        and sc["on_term"] == "ignore"
+
+
 def oracle_self_stop(sc, obs):
     """"... and then nextest stops itself; on SIGCONT all are resumed": what nextest's parent saw"""
     if not obs.get("supervised"):
@@ -643,6 +657,14 @@ def oracle_C12(sc, obs, baseline=None):
             if sg in (1, 2, 3, 15) and unstopped(t, stops) < deadline - eps:
                 return (f"signal {sg} reached the test at {t:.0f} ms, after only {unstopped(t, stops):.0f} ms of "
                         f"running time; the deadline is {deadline:.0f} ms of running time")
+    # stopped time is excluded from the slow-timeout clock: not marked slow before one period of unstopped time
+    if obs.get("is_slow") or obs.get("slow_events"):
+        wall = obs.get("end_t") if obs.get("end_t") is not None else (obs.get("reported_t") or obs["nextest_exit_t"])
+        running = unstopped(wall, stops)
+        if running < sc["period"] * u - eps:
+            return (f"{SLOW_WHILE_STOPPED}: is_slow={obs.get('is_slow')}, slow events {obs.get('slow_events')} after "
+                    f"{running:.0f} ms of unstopped running time (the test ended at {wall:.0f} ms); the slow-timeout "
+                    f"period is {sc['period'] * u:.0f} ms")
     # the clocks keep working after resumption: a test that ignores SIGTERM is killed when
     # terminate-after periods plus the grace period of *running* time have passed
     period, ta, grace = sc["period"] * u, sc.get("ta"), sc["grace"] * u
@@ -762,6 +784,12 @@ def check_family(chk, rig, scs, oracle, tag, retries=2):
         if o.get("nextest_stops"):
             chk.count("runs_in_which_nextest_was_seen_stopped_by_its_parent")
         why = oracle(sc, o)
+        if known_class_F17(sc, why):
+            listed = [f for f in vlib.known_findings().get("findings", []) if f.get("id") == "F17"]
+            if listed:
+                chk.known_finding(listed[0]["what"])
+                chk.count("known_finding_F17_observed")
+                why = None
         diff, which = compare_any(sc, [p, alt], o) if o.get("started") else ([], 0)
         if alt is not None and o.get("started"):
             order = [k for k in o.get("tap_order", []) if k in ("RunContinued", "RunBeginCancel")]
